@@ -6,6 +6,8 @@ Totality, weekday selector: `day_offset`, `nth_entry`, `weekday_range`, `weekday
 namespace OH.Proofs.SynTotal
 open OH.Model OH.Model.Peg OH.Model.Parser OH.Generated.Grammar
 
+theorem i64Ok_zero : i64Ok 0 = true := by decide
+
 theorem conf_day_offset {k t} (h : Conf g_day_offset false k t) :
     ∃ x, k = [x] ∧ Good .day_offset buildDayOffset (fun n => i64Ok n = true) x := by
   conf_unfoldk [g_day_offset, g_space] at h
@@ -33,7 +35,156 @@ theorem conf_nth_entry {k t} (h : Conf g_nth_entry false k t) :
   all_goals refine ⟨_, rfl, rfl, ?_⟩
   all_goals build_simp [buildNthEntry, *]
   all_goals repeat safe_bind
-  all_goals trace_state
-  all_goals sorry
+  all_goals simp
+  all_goals omega
+
+/-- `arr[i - 1] = true` for `i` in `a..=b`, on a `[bool; 5]`, with `1 ≤ a, b ≤ 5`: no index panic -/
+theorem setNth_safe {arr : List Bool} {a b : Nat} (hl : arr.length = 5) (ha : 1 ≤ a) (hb : b ≤ 5) :
+    Safe (fun r => r.length = 5) (setNth arr a b) := by
+  unfold setNth
+  split
+  · simpa using hl
+  · split
+    · omega
+    · split
+      · omega
+      · simp
+
+abbrev NthEntryGood := Good .nth_entry buildNthEntry
+  (fun r => 1 ≤ r.2.1 ∧ r.2.1 ≤ 5 ∧ 1 ≤ r.2.2 ∧ r.2.2 ≤ 5)
+
+/-- the `while pairs.peek() is nth_entry` loop -/
+theorem nthLoop_safe (es rest : List T) (hes : ∀ e ∈ es, NthEntryGood e)
+    (hrest : ∀ o r, rest = o :: r → o.rule ≠ .nth_entry) :
+    ∀ (s e : List Bool), s.length = 5 → e.length = 5 →
+      Safe (fun r => r.1.length = 5 ∧ r.2.1.length = 5 ∧ r.2.2 = rest) (nthLoop (es ++ rest) s e) := by
+  induction es with
+  | nil =>
+    intro s e hs he
+    cases rest with
+    | nil => simp [nthLoop, hs, he]
+    | cons o r =>
+      have := hrest o r rfl
+      simp [nthLoop, this, hs, he]
+  | cons x xs ih =>
+    intro s e hs he
+    have hx := hes x (by simp)
+    simp only [List.cons_append, nthLoop, hx.1, if_true]
+    refine Safe.bind hx.2 (fun r hr => ?_)
+    obtain ⟨sign, a, b⟩ := r
+    simp only at hr
+    cases sign with
+    | neg =>
+      refine Safe.bind (setNth_safe he hr.1 hr.2.2.2) (fun e' he' => ?_)
+      exact ih (fun y hy => hes y (by simp [hy])) s e' hs he'
+    | pos =>
+      refine Safe.bind (setNth_safe hs hr.1 hr.2.2.2) (fun s' hs' => ?_)
+      exact ih (fun y hy => hes y (by simp [hy])) s' e hs' he
+
+
+abbrev DayOffsetGood := Good .day_offset buildDayOffset (fun n => i64Ok n = true)
+abbrev WdayGood := Good .wday buildWday (fun d => d ≤ 6)
+
+/-- `wday ~ nth_entry* ~ day_offset?` (covers `wday "[" nth,… "]" day_offset?` and the bare `wday`) -/
+theorem buildWeekdayRange_nth (txt : List Char) (wd : T) (es rest : List T) (hwd : WdayGood wd)
+    (hes : ∀ e ∈ es, NthEntryGood e) (hrest : rest = [] ∨ ∃ o, rest = [o] ∧ DayOffsetGood o) :
+    Safe (fun r => r.wf = true) (buildWeekdayRange (.node .weekday_range txt (wd :: (es ++ rest)))) := by
+  have hr1 : ∀ o r, rest = o :: r → o.rule ≠ .nth_entry := by
+    intro o r h
+    rcases hrest with rfl | ⟨o', rfl, ho⟩
+    · cases h
+    · cases h; rw [ho.1]; decide
+  have hhead : ∀ b r, es ++ rest = b :: r → b.rule ≠ .wday := by
+    intro b r hbr
+    cases es with
+    | nil =>
+      rcases hrest with rfl | ⟨o, rfl, ho⟩
+      · cases hbr
+      · cases hbr; rw [ho.1]; decide
+    | cons e es' =>
+      cases hbr; rw [(hes b (by simp)).1]; decide
+  build_simp_only [buildWeekdayRange]
+  refine Safe.bind hwd.2 (fun start hstart => ?_)
+  refine Safe.bind (wa := fun p => p = (start, es ++ rest)) ?_ ?_
+  · split
+    · next b r heq => simp [hhead b r heq]
+    · next heq => simp [heq]
+  rintro _ rfl
+  simp only []
+  refine Safe.bind (nthLoop_safe es rest hes hr1 allFalse5 allFalse5 rfl rfl) (fun r hr => ?_)
+  obtain ⟨ns, ne, rest3⟩ := r
+  simp only at hr
+  obtain ⟨hns, hne, hr3⟩ := hr
+  subst hr3
+  refine Safe.bind (wa := fun n => i64Ok n = true) ?_ (fun off hoff' => ?_)
+  · rcases hrest with rfl | ⟨o, rfl, ho⟩
+    · simp [i64Ok]
+    · exact ho.2
+  simp only [Safe.ok_iff, WeekDayRange.wf]
+  split <;> simp [allTrue5, *] <;> omega
+
+
+theorem conf_weekday_range {k t} (h : Conf g_weekday_range false k t) :
+    ∃ x, k = [x] ∧ Good .weekday_range buildWeekdayRange (fun r => r.wf = true) x := by
+  conf_unfoldk [g_weekday_range] at h
+  conf_destruct [conf_wday, conf_nth_entry, conf_day_offset]
+  · have hall := starOf_sep (fun _ _ => conf_nth_entry) ‹StarOf _ _ _ _›
+    refine ⟨_, rfl, rfl, ?_⟩
+    refine buildWeekdayRange_nth _ _ (_ :: _) [] ⟨‹_›, ‹_›⟩ ?_ (Or.inl rfl)
+    intro e he
+    rcases List.mem_cons.mp he with rfl | he
+    · exact ⟨‹_›, ‹_›⟩
+    · exact hall e he
+  · have hall := starOf_sep (fun _ _ => conf_nth_entry) ‹StarOf _ _ _ _›
+    refine ⟨_, rfl, rfl, ?_⟩
+    refine buildWeekdayRange_nth _ _ (_ :: _) [_] ⟨‹_›, ‹_›⟩ ?_ (Or.inr ⟨_, rfl, ‹_›, ‹_›⟩)
+    intro e he
+    rcases List.mem_cons.mp he with rfl | he
+    · exact ⟨‹_›, ‹_›⟩
+    · exact hall e he
+  · refine ⟨_, rfl, rfl, ?_⟩
+    build_simp [buildWeekdayRange, nthLoop, *]
+    safe_bind
+    safe_bind
+    simp [WeekDayRange.wf, allTrue5, allFalse5, i64Ok, *]
+  · refine ⟨_, rfl, rfl, ?_⟩
+    exact buildWeekdayRange_nth _ _ [] [] ⟨‹_›, ‹_›⟩ (by simp) (Or.inl rfl)
+
+theorem conf_weekday_sequence {k t} (h : Conf g_weekday_sequence false k t) :
+    ∃ x, k = [x] ∧ x.rule = .weekday_sequence ∧
+      Safe (fun l => ∀ r ∈ l, r.wf = true) (x.kids.mapM buildWeekdayRange) := by
+  obtain ⟨k', rfl, hb⟩ := Conf.rule_shape h
+  refine ⟨_, rfl, rfl, ?_⟩
+  obtain ⟨x, xs, rfl, hall⟩ := conf_sep_list (fun _ _ => conf_weekday_range) hb
+  exact (Safe.mapM_ne x xs (fun y hy => (hall y hy).2)).mono (fun _ h => h.2)
+
+theorem conf_holiday {k t} (h : Conf g_holiday false k t) :
+    ∃ x, k = [x] ∧ Good .holiday buildHoliday (fun r => r.wf = true) x := by
+  conf_unfoldk [g_holiday, g_public_holiday, g_school_holiday] at h
+  conf_destruct [conf_day_offset]
+  all_goals refine ⟨_, rfl, rfl, ?_⟩
+  all_goals build_simp [buildHoliday, *]
+  all_goals repeat safe_bind
+  all_goals simp [WeekDayRange.wf, i64Ok_zero, *]
+
+theorem conf_holiday_sequence {k t} (h : Conf g_holiday_sequence false k t) :
+    ∃ x, k = [x] ∧ x.rule = .holiday_sequence ∧
+      Safe (fun l => ∀ r ∈ l, r.wf = true) (x.kids.mapM buildHoliday) := by
+  obtain ⟨k', rfl, hb⟩ := Conf.rule_shape h
+  refine ⟨_, rfl, rfl, ?_⟩
+  obtain ⟨x, xs, rfl, hall⟩ := conf_sep_list (fun _ _ => conf_holiday) hb
+  exact (Safe.mapM_ne x xs (fun y hy => (hall y hy).2)).mono (fun _ h => h.2)
+
+
+theorem conf_weekday_selector {k t} (h : Conf g_weekday_selector false k t) :
+    ∃ x, k = [x] ∧ Good .weekday_selector buildWeekdaySelector (fun l => ∀ r ∈ l, r.wf = true) x := by
+  conf_unfoldk [g_weekday_selector] at h
+  conf_destruct [conf_weekday_sequence, conf_holiday_sequence]
+  all_goals refine ⟨_, rfl, rfl, ?_⟩
+  all_goals build_simp [buildWeekdaySelector, *]
+  all_goals repeat safe_bind
+  all_goals simp only [Safe.ok_iff, List.mem_append]
+  all_goals intro r hr
+  all_goals first | (rcases hr with hr | hr <;> simp [*]) | simp [*]
 
 end OH.Proofs.SynTotal
